@@ -49,7 +49,7 @@ CHECKS = {
  'C06': dict(
     text='Theorems (Coq, all frame heaps): lookup finds the innermost binding and skips non-binding frames; define/set/let/fn obey the environment model; a closure call '
          'runs in a frame whose parent is the captured one (lexical, not dynamic) and restores the caller frame; let is sequential; error cases; no frame ever binds a name twice (FrameInv.v: whole evaluator by induction on fuel, and every history of API operations). '
-         'Left-to-right single evaluation is the definition of eval_args and is tied to the code by the differential check against a reference interpreter.' + DIFF,
+         'case runs exactly the body of the first clause whose key equals the value of the key form, the default clause only when none does (CaseProofs.v). Left-to-right single evaluation is the definition of eval_args and is tied to the code by the differential check against a reference interpreter.' + DIFF,
     technique='Coq proof (environment-model laws) + differential correspondence + reference interpreter oracle'),
  'C07': dict(
     text='Theorems (Coq): whenever the static scope stack describes the dynamic frame chain (chain_matches), a symbol resolved to distance k reads and writes exactly the binding '
